@@ -11,6 +11,8 @@ COLUMNS = {"i1": "Int", "i2": "Int", "r1": "Real", "s1": "Str", "s2": "Str", "b1
            "t1": "DateTime", "d1": "Date"}
 
 INT_VALUES = [0, 1, -1, 2, -2, 3, -3, 7, 10, -7, 100]
+BIG_INTS = [2 ** 31 - 1, 2 ** 31, -2 ** 31 - 1, 2 ** 32 + 5, 10 ** 12 + 7, 2 ** 40 + 3]
+LONG_STRINGS = ["a" * 70, "ab" * 150 + "'" + "b" * 10, "x" * 255 + "%", "y" * 256, ("B_" * 40) + "\\" + "z" * 30]
 REAL_QUARTERS = list(range(-40, 41))
 STR_ALPHABET = ["a", "b", "A", "B", "0", " ", "'", "%", "_", "\\", '"', ";", "-", "☃"]
 PAYLOADS = ["' OR 1=1 --", "%'; DROP TABLE item; --", "\\'", "a%b", "a_b", "100%", "_", "%", "\\",
@@ -72,7 +74,9 @@ def int_lits(F):
         if s == 2:
             return ("lit", "int", ("-" if v < 0 else "") + "00%d" % abs(v))
         return ("lit", "int", str(v))
-    return st.tuples(st.sampled_from(INT_VALUES), st.integers(0, 5)).map(spell)
+    small = st.tuples(st.sampled_from(INT_VALUES), st.integers(0, 5)).map(spell)
+    big = st.sampled_from(BIG_INTS).map(lambda v: ("lit", "int", str(v)))
+    return st.one_of(small, small, small, small, small, small, small, small, small, big)
 
 
 def real_lits(F):
@@ -97,7 +101,10 @@ def str_values(F=None, wild=True):
 
 
 def str_lits(F, wild=True):
-    return str_values(F, wild).map(lambda s: ("lit", "str", s))
+    base = str_values(F, wild).map(lambda s: ("lit", "str", s))
+    pool = LONG_STRINGS if wild else [x for x in LONG_STRINGS if not any(c in x for c in "%_\\")]
+    long_ = st.sampled_from(pool).map(lambda s: ("lit", "str", s))
+    return st.one_of(*([base] * 19 + [long_]))
 
 
 def dt_lits(F):
@@ -243,6 +250,32 @@ def pred(draw, depth, F):
             return draw(comparison(0, F))
         return ident("b1")
     c = draw(st.integers(0, 99))
+    if c == 0 and depth >= 2:
+        # a long run of one boolean operator (left-nested or balanced), 9..17 operands
+        op = draw(st.sampled_from(["and", "or"]))
+        n = draw(st.sampled_from([9, 12, 17]))
+        items = [draw(comparison(0, F)) for _ in range(n)]
+        if draw(st.booleans()):
+            t = items[0]
+            for x in items[1:]:
+                t = ("bool", op, t, x)
+            return t
+
+        def bal(xs):
+            if len(xs) == 1:
+                return xs[0]
+            m = len(xs) // 2
+            return ("bool", op, bal(xs[:m]), bal(xs[m:]))
+        return bal(items)
+    if c == 1 and depth >= 2:
+        # a long arithmetic run
+        op = draw(st.sampled_from(["add", "sub", "mul"]))
+        n = draw(st.sampled_from([8, 12]))
+        t = draw(expr("Int", 0, F))
+        for _ in range(n):
+            t = ("bin", op if op != "mul" else draw(st.sampled_from(["add", "mul"])), t,
+                 draw(st.sampled_from([("lit", "int", "1"), ("lit", "int", "2"), ident("i1"), ident("i2")])))
+        return ("cmp", draw(st.sampled_from(CMP_OPS)), t, draw(expr("Int", 0, F)))
     if c < 24:
         return ("bool", draw(st.sampled_from(["and", "or"])), draw(pred(d, F)), draw(pred(d, F)))
     if c < 32:
@@ -317,7 +350,7 @@ def null_test(draw, d, F):
 def in_list(draw, d, F):
     ty = draw(st.sampled_from(["Int", "Int", "Str", "Str", "Real", "Date"]))
     e = draw(expr(ty, min(d, 1), F))
-    n = draw(st.integers(1, 4))
+    n = draw(st.sampled_from([1, 2, 2, 3, 3, 4, 4, 1, 2, 3, 12, 40]))
     items = []
     for _ in range(n):
         k = draw(st.integers(0, 11))
@@ -338,10 +371,10 @@ def nullable(s, p_null=0.2):
 
 def row_strategy():
     return st.fixed_dictionaries({
-        "i1": nullable(st.sampled_from(INT_VALUES)),
+        "i1": nullable(st.sampled_from(INT_VALUES + BIG_INTS[:3])),
         "i2": nullable(st.sampled_from(INT_VALUES)),
         "r1": nullable(st.sampled_from(REAL_QUARTERS).map(lambda k: k / 4.0)),
-        "s1": nullable(str_values()),
+        "s1": nullable(st.one_of(str_values(), str_values(), str_values(), st.sampled_from(LONG_STRINGS))),
         "s2": nullable(str_values()),
         "b1": nullable(st.booleans()),
         "t1": nullable(st.sampled_from(DT_GRID)),
@@ -350,7 +383,9 @@ def row_strategy():
 
 
 def rows_strategy(max_rows=6):
-    return st.lists(row_strategy(), min_size=1, max_size=max_rows)
+    few = st.lists(row_strategy(), min_size=1, max_size=max_rows)
+    many = st.lists(row_strategy(), min_size=40, max_size=64)
+    return st.one_of(*([few] * 49 + [many]))
 
 
 # ---- typing of generated terms (used by shrinkers to stay inside the fragment) -----------------
